@@ -37,6 +37,7 @@ int main() {
   std::string line;
   while (std::getline(std::cin, line)) {
     if (line.empty() || line[0] == '#') { std::cout << line << "\n"; continue; }
+    vh::AllocCounter() = 0;          // the allocation budget is per case
     std::vector<vh::Sx> a = vh::ParseLine(line);
     std::string out;
     if (a.size() < 2) out = "HARNESS-ERROR short";
